@@ -236,8 +236,63 @@ def module_state_snapshot() -> dict:
     return out
 
 
+_EXT_N = [0]
+
+
+def user_extension_history(rng):
+    """What an application that extends the library leaves behind: it DEFINES subclasses of the library's flow, stream,
+    encoder and lookup classes (class creation runs __init_subclass__ / metaclass hooks) and runs an unrelated stream with
+    them.  None of that may change what default-configured streams write afterwards."""
+    from pyjelly.serialize import flows as F
+    from pyjelly.serialize import lookup as L
+    from pyjelly.serialize import streams as S
+
+    _EXT_N[0] += 1
+    base_flow = rng.choice([F.FlatTriplesFrameFlow, F.FlatQuadsFrameFlow, F.GraphsFrameFlow, F.DatasetsFrameFlow,
+                            F.BoundedFrameFlow, F.ManualFrameFlow])
+
+    class EveryRowFlow(base_flow):                       # a user flow that cuts a frame after every statement
+        def frame_from_bounds(self):
+            return self.to_stream_frame()
+
+    class UserTripleStream(S.TripleStream):
+        pass
+
+    class UserQuadStream(S.QuadStream):
+        pass
+
+    class UserLookup(L.Lookup):
+        pass
+
+    class UserEncoder(gser.GenericSinkTermEncoder):
+        pass
+
+    class UserRdflibEncoder(rser.RDFLibTermEncoder):
+        pass
+
+    kept = [EveryRowFlow, UserTripleStream, UserQuadStream, UserLookup, UserEncoder, UserRdflibEncoder]
+    # ... and uses them for an unrelated stream
+    try:
+        from pyjelly import jelly as _j
+        if issubclass(base_flow, (F.FlatTriplesFrameFlow, F.GraphsFrameFlow)) or base_flow in (F.BoundedFrameFlow, F.ManualFrameFlow):
+            flow = EveryRowFlow(logical_type=_j.LOGICAL_STREAM_TYPE_FLAT_TRIPLES) if base_flow in (F.BoundedFrameFlow, F.ManualFrameFlow) \
+                else EveryRowFlow()
+            opts = S.SerializerOptions(flow=flow, logical_type=flow.logical_type)
+            st = UserTripleStream(encoder=UserEncoder(lookup_preset=opts.lookup_preset), options=opts)
+            conv = T.stmt_to_generic
+            list(gser.stream_frames(st, (conv(x) for x in [(("iri", "urn:u:a"), ("iri", "urn:u:b"), ("lit", str(k), None, None))
+                                                            for k in range(3)])))
+    except Exception:  # noqa: BLE001 - the unrelated stream is only history; what it does is not judged
+        pass
+    return kept
+
+
 def history_scenario(ctx, rng, seed, ref):
     """(a) other streams created and half-used before."""
+    if rng.random() < .5:
+        ctx._keep = getattr(ctx, "_keep", [])
+        ctx._keep.append(user_extension_history(rng))
+        ctx.observe("history-with-user-subclasses-defined")
     for _ in range(rng.randint(2, 8)):
         w = make_workload(seed, rng.randrange(N_WORKLOADS))
         it = open_workload(w, seed)
